@@ -137,6 +137,8 @@ func newSide(signed bool) *side {
 		cfg.PermissionlessActivationEpoch = phase0.Epoch(math.MaxUint64)
 	}
 	rec := &verdictRecorder{MetricsReporter: metricsreporter.NewNop()}
+	// whether messages travel in the signed envelope is decided exactly as Broadcast / validateP2PMessage decide it
+	signed = cfg.Beacon.EstimatedCurrentEpoch() > cfg.PermissionlessActivationEpoch
 	return &side{netCfg: cfg, rec: rec, signed: signed,
 		mv: validation.NewMessageValidator(cfg, validation.WithMetrics(rec))}
 }
@@ -271,6 +273,11 @@ func strs(c kase, k string) []string {
 }
 
 func (w *world) violate(sig, desc string, c kase) {
+	w.res.Counters["violations_"+sig]++
+	if w.res.Counters["violations_"+sig] > 25 { // keep room for the other monitors (vh.Result stores 200 at most)
+		w.res.Counters["violations"]++
+		return
+	}
 	w.res.Violate(sig, desc, fmt.Sprintf("case-%d", vh.Int(c, "id")), vh.Int(c, "id"))
 }
 
@@ -361,9 +368,15 @@ func (w *world) runKey(c kase) kase {
 	}
 
 	// receiver: the same bytes offered on every advertised topic (and on the "unknown" sentinel)
-	var accepted []string
+	accepted := []string{}
 	verdictOnOwn := ""
-	for _, t := range w.probeList {
+	probes := w.probeList
+	for _, t := range fullNames(setOf(append(append([]string{}, pub...), sub...))) {
+		if !w.advertised[t] && t != probes[len(w.advList)] {
+			probes = append(append([]string{}, probes...), t) // a topic outside the advertised range is probed too
+		}
+	}
+	for _, t := range probes {
 		v := w.validate(s, t, wire)
 		if v != w.topicNF {
 			accepted = append(accepted, t)
